@@ -246,6 +246,40 @@ fn run_impl(c: &Case) -> (String, Vec<(u64, u64)>) {
     (format!("{} I {}{} X {} F {}", status, ids.len(), idl.concat(), x, f), draws)
 }
 
+// ------------------------------------------------------------------------------------------------ watchdog
+// A selection that does not return (e.g. a top-up loop that keeps drawing the same worthless UTxO) must not hang the
+// check: the case being run is published here; when it makes no progress for HANG_SECS the watchdog records the
+// observation `hang` for it and ends the run (the files written so far stay valid).
+const HANG_SECS: u64 = 20;
+static TICK: std::sync::atomic::AtomicU64 = std::sync::atomic::AtomicU64::new(0);
+static CURRENT: std::sync::Mutex<Option<(String, String, String, String)>> = std::sync::Mutex::new(None); // cases path, impl path, index, case line
+fn publish(cases: &str, impl_: &str, idx: &str, line: &str) {
+    *CURRENT.lock().unwrap() = Some((cases.to_string(), impl_.to_string(), idx.to_string(), line.to_string()));
+    TICK.fetch_add(1, std::sync::atomic::Ordering::SeqCst);
+}
+fn start_watchdog() {
+    std::thread::spawn(|| {
+        let mut last = TICK.load(std::sync::atomic::Ordering::SeqCst);
+        let mut since = std::time::Instant::now();
+        loop {
+            std::thread::sleep(std::time::Duration::from_millis(500));
+            let now = TICK.load(std::sync::atomic::Ordering::SeqCst);
+            if now != last { last = now; since = std::time::Instant::now(); continue; }
+            if since.elapsed().as_secs() >= HANG_SECS {
+                if let Some((cases, impl_, idx, line)) = CURRENT.lock().unwrap().clone() {
+                    use std::fs::OpenOptions;
+                    if !cases.is_empty() {
+                        if let Ok(mut f) = OpenOptions::new().append(true).create(true).open(&cases) { let _ = writeln!(f, "{} {} Q 0", idx, line); }
+                    }
+                    if let Ok(mut f) = OpenOptions::new().append(true).create(true).open(&impl_) { let _ = writeln!(f, "{} hang", idx); }
+                    println!("watchdog: case {} did not return within {} s: {}", idx, HANG_SECS, line);
+                }
+                std::process::exit(0);
+            }
+        }
+    });
+}
+
 // ------------------------------------------------------------------------------------------------ oracle
 struct Oracle { child: Child, to: ChildStdin, from: BufReader<ChildStdout> }
 impl Oracle {
@@ -483,8 +517,11 @@ fn main() {
         let thorough = is_thorough();
         let mut r = Rng::new(seed ^ 0xC08C08);
         let mut out = Out::new(&args[2]);
+        let cases_path = format!("{}/cases.txt", args[2]);
+        let impl_path = format!("{}/impl.txt", args[2]);
+        start_watchdog();
         // (a) random scenarios x random scripts
-        let n_scen = if thorough { 6000 } else { 1600 };
+        let n_scen = if thorough { 25000 } else { 1600 };
         for _ in 0..n_scen {
             let sc = gen_scenario(&mut r, 12);
             let mut cache = HashMap::new();
@@ -492,33 +529,45 @@ fn main() {
             for _ in 0..scripts {
                 let mut c = sc.clone();
                 c.choices = gen_choices(&mut r);
+                out.cases.flush().unwrap(); out.impl_.flush().unwrap();
+                publish(&cases_path, &impl_path, &out.n.to_string(), &show_case(&c));
                 let (res, _) = run_impl(&c);
                 let line = complete(&c, &mut orc, &mut cache);
                 out.emit(&line, &res);
             }
         }
         // (b) every outcome of the random strategies on small scenarios
-        let n_small = if thorough { 120 } else { 6 };
-        let cap = if thorough { 2500 } else { 150 };
+        let n_small = if thorough { 400 } else { 6 };
+        let cap = if thorough { 20000 } else { 150 };
+        let (mut n_complete, mut n_capped, mut n_leaves) = (0usize, 0usize, 0usize);
         for _ in 0..n_small {
             let mut sc = gen_scenario(&mut r, if thorough { 6 } else { 5 });
             sc.strat = if r.chance(2, 3) { 1 } else { 3 };
             sc.label = format!("x{}", sc.label);
             let mut cache = HashMap::new();
             let mut lines: Vec<(String, String)> = vec![];
-            let (_n, _complete) = enumerate(&sc, cap, |c, res| {
+            out.cases.flush().unwrap(); out.impl_.flush().unwrap();
+            publish(&cases_path, &impl_path, &out.n.to_string(), &show_case(&sc));
+            let (n, done) = enumerate(&sc, cap, |c, res| {
+                TICK.fetch_add(1, std::sync::atomic::Ordering::SeqCst);
                 lines.push((complete(c, &mut orc, &mut cache), res.to_string()));
             });
+            n_leaves += n; if done { n_complete += 1 } else { n_capped += 1 }
             for (l, res) in lines { out.emit(&l, &res); }
         }
+        println!("exhaustive: {} scenarios enumerated completely, {} capped at {} outcomes, {} outcomes in total", n_complete, n_capped, cap, n_leaves);
+        let _ = std::fs::write(format!("{}/stats.txt", args[2]), format!("exhaustive_complete {}\nexhaustive_capped {}\noutcomes {}\n", n_complete, n_capped, n_leaves));
         out.finish();
     } else if args.len() >= 4 && args[1] == "run" {
         let cases = read_cases(&args[2]);
         let mut norm = String::new();
         let mut o = std::io::BufWriter::new(std::fs::File::create(&args[3]).unwrap());
+        start_watchdog();
         for (idx, toks) in cases {
             let toks: Vec<String> = toks.into_iter().take_while(|t| t != "Q" && t != "#").collect();
             let c = parse_case(&toks);
+            o.flush().unwrap();
+            publish("", &args[3], &idx, &show_case(&c));
             let (res, _) = run_impl(&c);
             let mut cache = HashMap::new();
             let line = complete(&c, &mut orc, &mut cache);
